@@ -164,6 +164,23 @@ def replay_known(ctx, binp):
                           open(os.path.join(ROOT, "corpus", "C08", "known", "orphan_resurrect.sched")).read())
     topic_delete_replays(ctx, binp, res)
     sync_every_replays(ctx, binp, res)
+    rc, kv, out = run_sched(ctx, binp, "empty_races_req_survives", timeout=90)
+    res["empty_races_req_survives"] = kv or {"error": out[-300:]}
+    sched = open(os.path.join(ROOT, "corpus", "C08", "known", "empty_races_req_survives.sched")).read()
+    if not kv:
+        if rc == -9 or "test timed out" in out:
+            ctx.violation("daemon-hangs:empty_races_req_survives", "Empty racing a parked REQ did not finish", sched)
+        else:
+            ctx.broken_ties.append("replay empty_races_req_survives did not run (rc=%s)" % rc)
+    else:
+        ctx.evaluations += 1
+        ctx.count_case("sched:empty_races_req_survives", nontrivial=True)
+        obs = " ".join("%s=%s" % x for x in sorted(kv.items()))
+        if kv.get("empty") != "ok":
+            ctx.violation("daemon-hangs:empty_races_req_survives", obs, sched + "# observed: " + obs + "\n")
+        elif kv.get("survived") == "true":
+            k = "empty-races-req-message-survives" + (":despite-lock" if kv.get("empty_waited_for_req") == "true" else "")
+            ctx.violation(k, "empty_races_req_survives: " + obs, sched + "# observed: " + obs + "\n")
     ctx.corr["hook_replays"] = res
 
 
@@ -253,7 +270,7 @@ def sync_every_replays(ctx, binp, res):
             if name == "sync_every_one_delete" or not shape.get("syncEveryValidated"):
                 ctx.violation("sync-every-refused:" + name, "nsqd.New refused the configuration: " + obs, sched + "# observed: " + obs + "\n")
             continue
-        if shape.get("syncEveryValidated"):
+        if shape.get("syncEveryValidated") and name != "sync_every_one_delete":
             ctx.violation("sync-every-accepted-despite-validation:" + name, obs, sched + "# observed: " + obs + "\n")
             continue
         left = [x for x in (kv.get("chan_files_left", "") + "," + kv.get("topic_files_left", "")).split(",") if x]
